@@ -219,6 +219,14 @@ func c14Pathological() []*load.Case {
 	add("import-no-prefix", hdr("a")+"import b; }", map[string]string{"b": hdr("b") + "}"})
 	add("import-same-prefix-twice", hdr("a")+"import b { prefix p; } import c { prefix p; } }", map[string]string{"b": hdr("b") + "}", "c": hdr("c") + "}"})
 	add("import-own-prefix", hdr("a")+"import b { prefix a; } leaf l { type a:t; } }", map[string]string{"b": hdr("b") + "typedef t { type string; } }"})
+	for i, expr := range []string{"f or\n g", "f\n", "\nf", "f\tand\tg", "f\r\nor g", "not\nf", "(f\n or g)", " f ", "f  or   g", "f or (g and not f)", "((f))", "f or", "or f", "()", "f g", "not", "f and and g", "f or or", ")f(", "f\x00g"} {
+		add(fmt.Sprintf("if-feature-ws-%d", i), hdr("a")+"feature f; feature g; leaf l { if-feature \""+expr+"\"; type string; } container c { if-feature \""+expr+"\"; } grouping gr { leaf x { type string; } } uses gr { if-feature \""+expr+"\"; refine x { if-feature \""+expr+"\"; default d; } } augment /c { if-feature \""+expr+"\"; leaf y { type string; } } }", nil)
+	}
+	add("augment-action-onto-leaf", hdr("a")+"leaf l { type string; } augment /l { action x; } }", nil)
+	add("augment-notification-onto-leaf", hdr("a")+"leaf l { type string; } augment /l { notification n; } }", nil)
+	add("augment-onto-rpc-input", hdr("a")+"rpc r { input { leaf i { type string; } } } augment /r/input { leaf j { type string; } } }", nil)
+	add("augment-onto-missing-rpc-output", hdr("a")+"rpc r { } augment /r/output { leaf j { type string; } } }", nil)
+	add("augment-onto-notification", hdr("a")+"notification n { leaf i { type string; } } augment /n { leaf j { type string; } } }", nil)
 	add("empty", "", nil)
 	add("only-comment", "// nothing", nil)
 	add("only-block-comment-open", "/* nothing", nil)
